@@ -13,6 +13,7 @@ import json
 from mon import refbufr as R
 from mon.compare import close, diff_message, impl_subset, td_of, jsonable, opsig
 from mon.gen import cases
+from mon.gen import failures
 
 ID = 'C05'
 LEVEL = 'exploration'
@@ -152,6 +153,7 @@ def small_scope(ctx, enc, dec, B, D):
                         pol = ColumnPolicy(ctx.rng, group, delta)
                         msg = R.build_message(ids, B, D, pol, n, True, 4)
                         try:
+                            failures.maybe(ctx, [dec], [enc], every=6)
                             m = dec.process(msg.bytes)
                         except Exception as e:
                             ctx.violate('rwritten/%s/exception:%s/delta%s' % (kind, type(e).__name__, delta),
@@ -316,6 +318,7 @@ def wide_and_strings(ctx, enc, dec, B, D):
             pol = ColumnPolicy(rng, cols, delta)
             msg = R.build_message(ids, B, D, pol, n, True, 4)
             try:
+                failures.maybe(ctx, [dec], [enc], every=6)
                 m = dec.process(msg.bytes)
             except Exception as e:
                 ctx.violate('wide/rwritten-exception:%s/delta%s' % (type(e).__name__, delta), 'decoder raised %r' % (e,),
@@ -390,6 +393,7 @@ def wide_and_strings(ctx, enc, dec, B, D):
         pol = ColumnPolicy(rng, cols2, 0)
         msg = R.build_message(ids, B, D, pol, n, True, 4)
         try:
+            failures.maybe(ctx, [dec], [enc], every=6)
             m = dec.process(msg.bytes)
             dd = diff_message(m, msg.subsets)
             ctx.count('string_r_written')
